@@ -98,7 +98,7 @@ const fn fam(
 /// Nesting ladders: `pre open^n mid close^n post`. The first eight are the ones the design names
 /// (open and closed forms of `[`, `{`, `(`, `#{`); the rest put the same brackets into pattern, type,
 /// string-hole and select position.
-pub const FAMILIES: [Family; 26] = [
+pub const FAMILIES: [Family; 44] = [
     fam("[^n", "", "[", "", "", ""),
     fam("[^n ]^n", "", "[", "", "]", ""),
     fam("{^n", "", "{", "", "", ""),
@@ -125,6 +125,27 @@ pub const FAMILIES: [Family; 26] = [
     fam("!(^n 'int )^n", "!", "(", "'int", ")", ""),
     fam("@^n", "", "@", "", "", ""),
     fam("0 =A(a: ^n 0 )^n", "0 =", "A(a: ", "0", ")", ""),
+    // openers that take a block or a list after a head, well-formed and with a wrong closer at
+    // the bottom: a construct that fails to parse must not be parsed again by a fallback
+    // alternative (or as the next term) at every level
+    fam("@{ ^n 0 }^n", "", "@{ ", "0", " }", ""),
+    fam("@{ ^n 0 ] }^n", "", "@{ ", "0 ]", " }", ""),
+    fam("@ { ^n 0 ] }^n", "", "@ { ", "0 ]", " }", ""),
+    fam("@'int { ^n 0 ] }^n", "", "@'int { ", "0 ]", " }", ""),
+    fam("#'int { ^n 0 }^n", "", "#'int { ", "0", " }", ""),
+    fam("#'int { ^n 0 ] }^n", "", "#'int { ", "0 ]", " }", ""),
+    fam("#'int -> 'int { ^n 0 ] }^n", "", "#'int -> 'int { ", "0 ]", " }", ""),
+    fam("# { ^n 0 ] }^n", "", "# { ", "0 ]", " }", ""),
+    fam("#{ ^n 0 ] }^n", "", "#{ ", "0 ]", " }", ""),
+    fam("{ ^n 0 ] }^n", "", "{ ", "0 ]", " }", ""),
+    fam("{ | ^n 0 ] }^n", "", "{ | ", "0 ]", " }", ""),
+    fam("{ 1 => ^n 0 ] }^n", "", "{ 1 => ", "0 ]", " }", ""),
+    fam("[^n 0 ) ]^n", "", "[", "0 )", "]", ""),
+    fam("A[^n 0 ) ]^n", "", "A[", "0 )", "]", ""),
+    fam("[a: ^n 0 ) ]^n", "", "[a: ", "0 )", "]", ""),
+    fam("\"{ ^n 0 ] }\"^n", "", "\"{ ", "0 ]", " }\"", ""),
+    fam("! [^n 0 ]^n", "", "! [", "0", "]", ""),
+    fam("! [^n 0 ) ]^n", "", "! [", "0 )", "]", ""),
 ];
 
 pub fn ladder_text(family: usize, n: usize) -> String {
